@@ -2,11 +2,11 @@
   Model of `crates/path/src/polygon.rs` (`Polygon`, `IdPolygon` and their five iterators and two
   `event` functions) and of `iterator.rs::FromPolyline` (C14).
 
-  The model mirrors the code as it is:
-  * `Polygon::event` answers `End` at `idx == len - 1` (where `iter` yields the last `Line`);
-    `IdPolygon::event` uses `idx == len`.
-  * `PolygonIdIter` on an empty range yields `Begin` and nothing else.
-  * `FromPolyline` on an empty point iterator yields a lone `End`.
+  Former defects, repaired in /repo and mirrored here in their repaired form:
+  * `Polygon::event` answered `End` at `idx == len - 1` (commit 8a7d6750: now `idx == len`, like
+    `IdPolygon::event`);
+  * `PolygonIdIter` on an empty range yielded a lone `Begin` (commit e1fd69dd: now nothing);
+  * `FromPolyline` on an empty point iterator yielded a lone `End` (commit 468b373e: now nothing).
   Slice indexing and `len - 1` are `Option`s (`none` = Rust panics).
   Mathlib-free.
 -/
@@ -32,7 +32,8 @@ def iter {π : Type} (points : List π) (closed : Bool) : Option (List (Event π
 
 /-- `PolygonIdIter::next` as a function of the iterator's `idx` -/
 def idIterAt (start end_ : Nat) (closed : Bool) (idx : Nat) : Option (Option (Event Nat)) :=
-  if idx = start then some (some (Event.begin start))
+  if start = end_ then some none
+  else if idx = start then some (some (Event.begin start))
   else if idx < end_ then (csub1 idx).map fun i => some (Event.line i idx)
   else if idx = end_ then (csub1 end_).map fun l => some (Event.end_ l start closed)
   else some none
@@ -56,12 +57,11 @@ def idIter (len : Nat) (closed : Bool) : Option (List (Event Nat)) :=
 /-- `Polygon::event` -/
 def polygonEvent {π : Type} (points : List π) (closed : Bool) (idx : Nat) : Option (Event π) :=
   if idx = 0 then points[0]?.map Event.begin
-  else
+  else if idx = points.length then
     (csub points.length 1).bind fun lastIdx =>
-      if idx = lastIdx then
-        points[lastIdx]?.bind fun l => points[0]?.map fun f => Event.end_ l f closed
-      else
-        (csub idx 1).bind fun i => points[i]?.bind fun a => points[idx]?.map fun b => Event.line a b
+      points[lastIdx]?.bind fun l => points[0]?.map fun f => Event.end_ l f closed
+  else
+    (csub idx 1).bind fun i => points[i]?.bind fun a => points[idx]?.map fun b => Event.line a b
 where
   csub (a b : Nat) : Option Nat := if b ≤ a then some (a - b) else none
 
@@ -80,7 +80,7 @@ where
 def fromPolylineGo {π : Type} (close : Bool) : List π → π → π → Bool → List (Event π)
   | next :: r, _, _, true => Event.begin next :: fromPolylineGo close r next next false
   | next :: r, cur, first, false => Event.line cur next :: fromPolylineGo close r next first false
-  | [], cur, first, _ => [Event.end_ cur first close]
+  | [], cur, first, isFirst => if isFirst then [] else [Event.end_ cur first close]
 
 /-- `FromPolyline::new(close, points)` collected; `zero` is `point(0.0, 0.0)` -/
 def fromPolyline {π : Type} (zero : π) (close : Bool) (points : List π) : List (Event π) :=
